@@ -29,7 +29,14 @@ def _progs():
         "mixed_rank": (lambda x, w: (x * w, jnp.sum(x, axis=(1, 2))), [S, (3,)]),
         "passthrough_and_perm": (lambda x: (x, jnp.transpose(x, (0, 3, 1, 2))), [S]),
         "max_slice": (lambda x, y: jnp.maximum(x, y[:, :1]), [S, S]),
+        "channel_softmax_head": (lambda x: jax.nn.softmax(jnp.tanh(x) * 2.0, axis=-1), [S]),
+        # symbolic H/W used as run-time VALUES: the dims must be read from the right axes of the NCHW-laid-out input
+        "symbolic_hw_as_values": (lambda x: x * (x.shape[1] * 1.0) + x.shape[2] * 0.5 - x.shape[0] * 0.25, [("B", "H", "W", 3)]),
+        "symbolic_reduce_norm": (lambda x: jnp.sum(x, axis=(1, 2)) / (x.shape[1] * x.shape[2]), [("B", "H", "W", 3)]),
     }
+
+
+FEED_SHAPES = {"symbolic_hw_as_values": [[(2, 4, 5, 3)], [(1, 6, 2, 3)]], "symbolic_reduce_norm": [[(2, 4, 5, 3)], [(3, 2, 7, 3)]]}
 
 
 def _ort_run(model, feeds):
@@ -136,10 +143,14 @@ def run(ctx):
     n_models = 0
     n_compared = 0
     for name, (fn, shapes) in progs.items():
-        xs = [nprng.standard_normal(s).astype(np.float32) for s in shapes]
+        feed_sets = FEED_SHAPES.get(name, [shapes])
+        xs = [nprng.standard_normal(s).astype(np.float32) for s in feed_sets[0]]
+        xs_more = [[nprng.standard_normal(s).astype(np.float32) for s in fs] for fs in feed_sets[1:]]
         plain = to_onnx(fn, shapes)
         ref = _ort_run(plain, xs)
+        refs_more = [_ort_run(plain, x2) for x2 in xs_more]
         in4 = [i for i, s in enumerate(shapes) if len(s) == 4]
+        shapes_for_reject = feed_sets[0]
         out4 = [i for i, r in enumerate(ref) if r.ndim == 4]
         subsets_in = [c for k in range(len(in4) + 1) for c in itertools.combinations(in4, k)]
         subsets_out = [c for k in range(len(out4) + 1) for c in itertools.combinations(out4, k)]
@@ -160,13 +171,26 @@ def run(ctx):
                 if len(got) != len(ref):
                     ctx.violate(key, "output count differs", {"program": name, "I": list(I), "O": list(O)})
                     continue
-                for j, (gv, rv) in enumerate(zip(got, ref)):
-                    want = np.transpose(rv, NHWC2NCHW) if j in O else rv
-                    n_compared += 1
-                    if gv.shape != want.shape or not np.allclose(gv, want, rtol=1e-4, atol=1e-5):
-                        ctx.violate(key, f"output {j} differs from {'NCHW version of ' if j in O else ''}plain export",
-                                    {"program": name, "inputs_as_nchw": list(I), "outputs_as_nchw": list(O), "output": j,
-                                     "seed": ctx.seed})
+                pairs = [(got, ref)]
+                try:
+                    for x2, r2 in zip(xs_more, refs_more):
+                        pairs.append((_ort_run(m, [np.transpose(x, NHWC2NCHW) if i in I else x for i, x in enumerate(x2)]), r2))
+                except Exception as e:  # noqa
+                    ctx.violate(key, f"flagged export fails at run time on another binding of the symbolic dims: {str(e)[:160]}",
+                                {"program": name, "inputs_as_nchw": list(I), "outputs_as_nchw": list(O)})
+                    continue
+                bad = False
+                for got_, ref_ in pairs:
+                    for j, (gv, rv) in enumerate(zip(got_, ref_)):
+                        want = np.transpose(rv, NHWC2NCHW) if j in O else rv
+                        n_compared += 1
+                        if gv.shape != want.shape or not np.allclose(gv, want, rtol=1e-4, atol=1e-5):
+                            ctx.violate(key, f"output {j} differs from {'NCHW version of ' if j in O else ''}plain export",
+                                        {"program": name, "inputs_as_nchw": list(I), "outputs_as_nchw": list(O), "output": j,
+                                         "seed": ctx.seed})
+                            bad = True
+                            break
+                    if bad:
                         break
         # rejections
         bad_reqs = [dict(inputs_as_nchw=[len(shapes)]), dict(inputs_as_nchw=[-1]), dict(outputs_as_nchw=[len(ref)]),
